@@ -99,7 +99,7 @@ def main():
                     # run exactly the demonstration's tests in the package they were written for
                     cmd = "cd %s && go test -count=1 -timeout 20m -run '^(%s)$' ." % (dst, "|".join(tests))
                 else:
-                    cmd = re.sub(r"/tmp/seed-C\d+[A-Za-z0-9_-]*", root, run)
+                    cmd = re.sub(r"/tmp/seed2?-C\d+[A-Za-z0-9_-]*", root, run)
                     if not cmd.strip().startswith("cd "):
                         cmd = "cd %s && %s" % (dst, cmd)
                 rc, out = sh(cmd, cwd=root, timeout=1800)
